@@ -198,7 +198,14 @@ impl<'a> StylesheetParser<'a> for SassParser<'a> {
             }
 
             let indentation = self.read_indentation()?;
-            assert_eq!(indentation, 0);
+
+            if indentation != 0 {
+                return Err((
+                    "Indenting at the beginning of the document is illegal.",
+                    self.toks.current_span(),
+                )
+                    .into());
+            }
         }
 
         Ok(statements)
